@@ -163,6 +163,7 @@ def run(ctx):
                     ctx.report('real-genomes-rerendered', dict(genome=os.path.basename(gpath), rep=rep, seed=ctx.seed), dict(n_base=len(base), n_got=len(got)),
                                ['signature-changed-under-re-rendering'], key=f'real:{os.path.basename(gpath)}')
         ctx.families.append(dict(name='real-genomes-rerendered', records=nre))
+        long_contig_files(ctx, tmp)
         ctx.rule_parts.append('[renderings] every rendering (contig order x per-contig orientation x case x line width x LF/CRLF x final newline) of '
                               '3 conformance genomes generated by TLC as file bytes with the required signature; gzip (1-3 members) and 6 file extensions '
                               'cycled independently; run through calc_file_signature (all) and `gambit signatures create` (sample); '
@@ -175,11 +176,58 @@ def run(ctx):
                         'for the bundled real genomes the oracle is metamorphic (signature of the original file / union of per-contig signatures)']
 
 
+def long_contig_files(ctx, tmp):
+    """Files whose contigs are longer than 2^20 nt (chromosome-sized), one per (boundary, offset, strand) with a prefix occurrence
+    planted around offsets 2^16 / 2^20.  The required signature is the union of the signatures of overlapping 2,000-nt pieces (lemma
+    LemmaPieces of KmerSearch, model-checked); the piece holding the planted occurrence is judged by TLC against the definition."""
+    from . import c01
+    from gambit.sigs.calc import SetAccumulator
+    fam = c01.LongContigs()
+    n = 0
+    comp = bytes.maketrans(b'ACGTacgt', b'TGCAtgca')
+    sets = c01.long_contig_sets(ctx)
+    for (k, pre, seed, boundaries, length) in sets[:1] if ctx.tier == 'quick' else sets[:2]:
+        kspec = KmerSpec(k, pre.decode())
+        rng = random.Random(seed)
+        other = bytes(rng.choice(b'ACGT') for _ in range(3000))
+        osig = set(int(v) for v in calc_signature(kspec, other, accumulator=SetAccumulator(k)))
+        judged = []
+        for vi, (label, s, union, jd) in enumerate(c01.long_contig_variants(ctx, k, pre, seed + 10, boundaries, length)):
+            judged += jd
+            union = union | osig
+            name = ['plain', 'reordered+revcomp', 'lower'][vi % 3]
+            out = []
+            for i, r in enumerate([other, s] if name == 'reordered+revcomp' else [s, other]):
+                if name == 'reordered+revcomp':
+                    r = r.translate(comp)[::-1]
+                if name == 'lower':
+                    r = r.lower()
+                width = [80, 61, 10 ** 7][(vi + i) % 3]
+                out.append(b'>c%d\n' % i + b'\n'.join(r[a:a + width] for a in range(0, len(r), width)) + b'\n')
+            path = write_file(tmp, f'long_{k}_{vi}.fa', b''.join(out), 1 if vi % 4 == 1 else 0)
+            got = set(int(v) for v in calc_file_signature(kspec, SequenceFile(path, 'fasta', 'auto')))
+            os.remove(path)
+            n += 1
+            ctx.traces += 1
+            ctx.evaluations += 1
+            ctx.nontrivial_keys.add(('longfile', k, label))
+            if got != union:
+                ctx.report('long-contig-files', dict(k=k, pre=list(pre), seed=seed, variant=label, rendering=name, length=len(s)),
+                           dict(missing=sorted(union - got)[:3], extra=sorted(got - union)[:3], n_expected=len(union), n_got=len(got)),
+                           ['signature-differs-from-union-of-content'], key=f'longfile:k{k}:{label}',
+                           describe=f'file with a {len(s)}-nt contig (planted {label}, {name}), k={k} prefix={pre!r}: {len(union - got)} k-mers missing, {len(got - union)} extra')
+        core.run_family(ctx, fam, inputs=judged)
+    ctx.families.append(dict(name='long-contig-files', records=n))
+    ctx.rule_parts.append('[long-contig-files] files holding a contig of 2^20+3000 nt, one per (boundary 2^16 / 2^20, offset, strand) with a prefix occurrence '
+                          'planted around the boundary, rendered plain / reordered+reverse-complemented / lower-case, some gzipped: the file signature must equal the '
+                          'union of the signatures of overlapping 2,000-nt pieces (piece lemma model-checked; the piece with the planted occurrence judged by TLC)')
+
+
 def replay(ctx, scen):
     tmp = tlc.mktmp('c06r-')
     try:
         if scen['family'] != 'renderings':
-            return True
+            return core.RERUN
         inp = scen['inputs']
         path = write_file(tmp, 'replay' + inp['ext'], bytes(inp['bytes']), inp['gzip'])
         got, dt = real_sig(path)
